@@ -1352,16 +1352,7 @@ func (c *Compiler) lowerCurrentOpcode() {
 		c.switchTo(originalLen, loopHeader)
 
 		if c.ensureTermination {
-			checkModuleExitCodePtr := builder.AllocateInstruction().
-				AsLoad(c.execCtxPtrValue,
-					wazevoapi.ExecutionContextOffsetCheckModuleExitCodeTrampolineAddress.U32(),
-					ssa.TypeI64,
-				).Insert(builder).Return()
-
-			args := c.allocateVarLengthValues(1, c.execCtxPtrValue)
-			builder.AllocateInstruction().
-				AsCallIndirect(checkModuleExitCodePtr, &c.checkModuleExitCodeSig, args).
-				Insert(builder)
+			c.insertModuleExitCodeCheck()
 		}
 	case wasm.OpcodeIf:
 		bt := c.readBlockType()
@@ -3662,7 +3653,26 @@ func (c *Compiler) lowerCallIndirect(typeIndex, tableIndex uint32) {
 	c.reloadAfterCall()
 }
 
+// insertModuleExitCodeCheck inserts the call to the trampoline which checks if the module has been closed.
+func (c *Compiler) insertModuleExitCodeCheck() {
+	builder := c.ssaBuilder
+	checkModuleExitCodePtr := builder.AllocateInstruction().
+		AsLoad(c.execCtxPtrValue,
+			wazevoapi.ExecutionContextOffsetCheckModuleExitCodeTrampolineAddress.U32(),
+			ssa.TypeI64,
+		).Insert(builder).Return()
+
+	args := c.allocateVarLengthValues(1, c.execCtxPtrValue)
+	builder.AllocateInstruction().
+		AsCallIndirect(checkModuleExitCodePtr, &c.checkModuleExitCodeSig, args).
+		Insert(builder)
+}
+
 func (c *Compiler) lowerTailCallReturnCall(fnIndex uint32) {
+	// A tail call does not grow the call stack, so a cycle of them is a loop.
+	if c.ensureTermination {
+		c.insertModuleExitCodeCheck()
+	}
 	isIndirect, sig, args, funcRefOrPtrValue := c.prepareCall(fnIndex)
 	builder := c.ssaBuilder
 	state := c.state()
@@ -3693,6 +3703,10 @@ func (c *Compiler) lowerTailCallReturnCall(fnIndex uint32) {
 }
 
 func (c *Compiler) lowerTailCallReturnCallIndirect(typeIndex, tableIndex uint32) {
+	// A tail call does not grow the call stack, so a cycle of them is a loop.
+	if c.ensureTermination {
+		c.insertModuleExitCodeCheck()
+	}
 	builder := c.ssaBuilder
 	state := c.state()
 	executablePtr, typ, args := c.prepareCallIndirect(typeIndex, tableIndex)
